@@ -2,6 +2,8 @@ import Zc.Model.Survive
 import Zc.Model.BrowserCb
 import Zc.Model.Responder
 import Zc.Model.Lookup
+import Zc.Model.Sched2
+import Zc.Model.QueryGen
 /-! # C15 — the downstream of the listener, composed from the models of the other properties
 
 `Zc.Survive.Down` left everything behind the listener uninterpreted.  Here it is instantiated with
@@ -13,11 +15,13 @@ the models that exist:
 * the **service browsers** among the listeners (`Browser.updateRecords` / `Browser.complete`: C04);
 * the **registry and the answer computation** (`Zc.respond`: C03) — `_get_answer_strategies` with the
   registry lookups that can raise `KeyError`, `_answer_question`, the memo fills;
+* the browsers' **query-scheduler bookkeeping** done inside `async_update_records`
+  (`reschedule_ptr_first_refresh`, `cancel_ptr_refresh` on the two-container model `Sched2`: C10);
 * the **service-info lookups in progress** among the listeners (`Lookup.processAll`: C18);
 * the encoder for what is sent inside the block is already part of `Zc.Survive.handleAssembled`.
 
 What stays uninterpreted is the record `Rest`: the listeners that are neither browsers nor
-lookups (user `RecordUpdateListener`s), the browsers' query-scheduler bookkeeping, `async_notify_all` / future wake-ups,
+lookups (user `RecordUpdateListener`s), `async_notify_all` / future wake-ups,
 the `_QueryResponse` routing with the question history, and `MulticastOutgoingQueue.async_add`.
 
 Text layer: decoded names become `str` (`textOfName`), registry/cache names become wire labels again
@@ -89,7 +93,7 @@ def dictRecords (d : DictRS) : List Rec := d.flatMap (fun p => p.1 :: p.2)
 /-- what this composition still leaves uninterpreted, over its own state `ρ` -/
 structure Rest (ρ ω : Type) where
   /-- `async_update_records` + `async_update_records_complete` of every listener that is neither a browser nor a
-  lookup, the scheduler bookkeeping the browsers do in `async_update_records`, waking lookup futures, `async_notify_all`.
+  lookup (user `RecordUpdateListener`s), waking lookup futures, `async_notify_all`.
   Arguments: clock, the `(new, old)` pairs, the cache during the first call, the cache during the second call, `new` -/
   listeners : ρ → Ms → List (Rec × Option Rec) → Cache → Cache → Bool → Except PyExc (ρ × List ω)
   /-- `_QueryResponse` (QU / unicast-source / multicast routing against the cache) and the question history -/
@@ -102,10 +106,17 @@ structure CState (ρ : Type) where
   cache : Cache
   /-- the `ServiceBrowser`s registered with the record manager -/
   browsers : List Browser
+  /-- the `QueryScheduler` of each browser: its configuration (browsed types, minimum delay …) and its two containers -/
+  scheds : List (Sched.Cfg × Sched2.S2) := []
   /-- the `ServiceInfo` objects of the lookups in progress (`async_request` adds them as listeners) -/
   lookups : List Lookup.Info := []
   /-- `zc.registry` -/
   reg : Registry
+  /-- `zc.question_history` as the browsers' query generation reads and writes it (the responder side of it lives in the
+  routing residue) -/
+  hist : QueryGen.History := []
+  /-- the question history as the lookups' query generation reads it -/
+  lhist : Lookup.Hist := []
   /-- the answer sets of the query being handled, between `answer` and `enqueue` -/
   pending : Option Routed := none
   rest : ρ
@@ -113,6 +124,8 @@ structure CState (ρ : Type) where
 /-- what the composite emits -/
 inductive COut (ω : Type) where
   | callback (browser : Nat) (cb : Callback)
+  /-- datagrams a timer block of the composite transmits (browser / lookup queries) -/
+  | sent (pkts : List Bytes)
   | other (o : ω)
   deriving Repr
 
@@ -126,6 +139,32 @@ def browsersStep (c1 : Cache) (now : Ms) (pairs : List (Rec × Option Rec)) (bs 
   let done := bs.map (fun b => Browser.complete (Browser.updateRecords lower possible c1 now b pairs))
   (done.map (·.1), done.map (·.2))
 
+/-- Python's exception for a scheduler error (`dangling` / `notEnabled` cannot be expressed in Python) -/
+def pyOfSched : Sched2.Err → PyExc
+  | .keyError => .keyError
+  | _ => .other
+
+/-- the scheduler calls `async_update_records` makes for one `(new, old)` pair: once per browsed type matching the
+pointer's owner name — `reschedule_ptr_first_refresh` for a new or refreshed pointer, `cancel_ptr_refresh` for an expired
+one; keyed by `pointer.alias_key` -/
+def schedOne (cfg : Sched.Cfg) (now : Ms) (s : Sched2.S2) (u : Rec × Option Rec) : Except Sched2.Err Sched2.S2 :=
+  if u.1.type = Gen.typePtr then
+    match u.1.rdata with
+    | .ptr alias =>
+      (cfg.types.filter (fun t => (possible u.1.name).contains t)).foldlM (fun s _ =>
+        match u.2 with
+        | none => Sched2.reschedule2 cfg s (lower alias) u.1.name u.1.ttl u.1.created
+        | some _ =>
+          if u.1.isExpired now then .ok (Sched2.cancel2 s (lower alias))
+          else Sched2.reschedule2 cfg s (lower alias) u.1.name u.1.ttl u.1.created) s
+    | _ => .ok s
+  else .ok s
+
+/-- every scheduler sees every pair -/
+def schedsStep (now : Ms) (pairs : List (Rec × Option Rec)) (ss : List (Sched.Cfg × Sched2.S2)) :
+    Except Sched2.Err (List (Sched.Cfg × Sched2.S2)) :=
+  ss.mapM (fun cs => (pairs.foldlM (schedOne lower possible cs.1 now) cs.2).map (fun s => (cs.1, s)))
+
 def callbacksOut (cbs : List (List Callback)) : List (COut ω) :=
   (cbs.zipIdx).flatMap (fun p => p.1.map (COut.callback p.2))
 
@@ -138,12 +177,15 @@ def ingest (d : CState ρ) (k : Pkt) : Except PyExc (CState ρ × List (COut ω)
     | none => .ok ({ d with cache := out.cache }, [])
     | some call =>
       let bs := browsersStep lower possible call.2 k.now call.1 d.browsers
-      match R.listeners d.rest k.now call.1 call.2 out.cache out.notify with
-      | .error e => .error e
-      | .ok (rest', o) =>
-        let ls := d.lookups.map (fun i => (Lookup.processAll lower call.2.allRecs k.now i (call.1.map (·.1))).1)
-        .ok ({ d with cache := out.cache, browsers := bs.1, lookups := ls, rest := rest' },
-             callbacksOut bs.2 ++ o.map COut.other)
+      match schedsStep lower possible k.now call.1 d.scheds with
+      | .error e => .error (pyOfSched e)
+      | .ok scheds' =>
+        match R.listeners d.rest k.now call.1 call.2 out.cache out.notify with
+        | .error e => .error e
+        | .ok (rest', o) =>
+          let ls := d.lookups.map (fun i => (Lookup.processAll lower call.2.allRecs k.now i (call.1.map (·.1))).1)
+          .ok ({ d with cache := out.cache, browsers := bs.1, scheds := scheds', lookups := ls, rest := rest' },
+               callbacksOut bs.2 ++ o.map COut.other)
 
 /-- answers and additionals as `_add_answers_additionals` orders them, converted for the encoder -/
 def setOf (dd : DictRS) : AnswerSet :=
